@@ -183,6 +183,17 @@ func (m *TransactionMap) Delete(key string) {
 	delete(m.trMap, key)
 }
 
+// DeleteIf deletes the entry of key when it still is tr. Whoever gives up on
+// its own transaction must not remove a later one that has the same key.
+func (m *TransactionMap) DeleteIf(key string, tr *Transaction) {
+	m.mutex.Lock()
+	defer m.mutex.Unlock()
+
+	if m.trMap[key] == tr {
+		delete(m.trMap, key)
+	}
+}
+
 // CloseAndDeleteAll closes and deletes all transactions.
 func (m *TransactionMap) CloseAndDeleteAll() {
 	m.mutex.Lock()
